@@ -187,7 +187,9 @@ def run(res, tier, seed, replay):
         cases_with_diagnostics=diag_cases, deterministic_aborts=aborts,
         rule="cases: H = graph-API histories over a universe of 12 definable types (a base type with 8 direct/indirect "
              "dependants), 10 importable kinds and 13 packages with overlapping implicit imports, incl. a socket with eight imports "
-             "and plugs filling all / half / the rest of them through the library plug() (fixed shapes named in the "
+             "and plugs filling all / half / the rest of them through the library plug(), and a semver track of seven import "
+             "names with compatible and incompatible instance kinds (explicit-import merge conflicts among 2-6 candidates; the "
+             "error's import/first/second fields are part of the observation) (fixed shapes named in the "
              "property + generators base-after-dependants / same-rank / overlapping-implicit-imports / random adaptive); "
              "D = every .wac fixture under crates/wac-parser/tests/{parser,resolution,encoding}[/fail] and examples/script.wac "
              "(parse -> print + AST json; resolve -> dot; encode in both dependency modes; failures -> rendered miette "
